@@ -234,6 +234,32 @@ func (f *filler) fill(v reflect.Value, depth int) {
 	}
 }
 
+// fillInPlace fills a pooled object the way its documentation shows: slices
+// that come with pre-allocated capacity are appended to (the backing array the
+// pool handed out is used), everything else as in fill.
+func (f *filler) fillInPlace(v reflect.Value) {
+	if v.Kind() != reflect.Struct {
+		f.fill(v, 1)
+		return
+	}
+	for i := 0; i < v.NumField(); i++ {
+		fv := v.Field(i)
+		if !fv.CanSet() {
+			continue
+		}
+		if fv.Kind() == reflect.Slice && fv.Cap() > 0 {
+			n := 1 + f.src.Intn(fv.Cap(), "fill.append")
+			for j := 0; j < n && fv.Len() < fv.Cap(); j++ {
+				e := reflect.New(fv.Type().Elem()).Elem()
+				f.fill(e, 1)
+				fv.Set(reflect.Append(fv, e))
+			}
+			continue
+		}
+		f.fill(fv, 1)
+	}
+}
+
 // fieldDiff names every field in which the structs behind two pointers differ.
 func fieldDiff(got, clean any) []string {
 	a, b := reflect.ValueOf(got), reflect.ValueOf(clean)
@@ -519,6 +545,7 @@ func (p *P) ownRun(r *core.Result, src *tape.Source, trace bool) {
 	}
 	if s.Deadlock {
 		r.Fail("progress", "deadlock", "all unfinished tasks blocked")
+		r.Poisoned = true
 		return
 	}
 	// final verification by the controller (ordered after every task)
@@ -599,7 +626,7 @@ func (p *P) runTask(ts *taskState, src *tape.Source, live *liveSet) {
 				continue
 			}
 			if rv := reflect.ValueOf(n); rv.Kind() == reflect.Ptr && !rv.IsNil() {
-				fl.fill(rv.Elem(), 1)
+				fl.fillInPlace(rv.Elem())
 			}
 			hh.canon0 = canon.Of(n)
 			if e.Put != nil {
